@@ -183,9 +183,24 @@ func genC13kmac(c *Ctx, datas map[string][]byte) {
 	run := func(class string, key, cust []byte, outLen int, ops []string) {
 		line := fmt.Sprintf("kmac %s %s %d %s", hx(key), hx(cust), outLen, strings.Join(ops, " "))
 		ans := guard(func() string {
-			h, err := hash.NewKMAC_128(key, cust, outLen)
+			// the key and customizer buffers are the caller's: they are wiped right after the constructor returns
+			// (a hasher that kept references to them would compute under the wiped key at its next Reset / ComputeHash)
+			var kbuf, cbuf []byte
+			if key != nil {
+				kbuf = append([]byte{}, key...)
+			}
+			if cust != nil {
+				cbuf = append([]byte{}, cust...)
+			}
+			h, err := hash.NewKMAC_128(kbuf, cbuf, outLen)
 			if err != nil {
 				return "err"
+			}
+			for i := range kbuf {
+				kbuf[i] = 0
+			}
+			for i := range cbuf {
+				cbuf[i] ^= 0xFF
 			}
 			if h.Size() != outLen {
 				return "size-mismatch"
